@@ -47,6 +47,12 @@ def handle (ws : List String) : String :=
     let ann := (Seata.Props.C19.announce resources).map fun a =>
       match a with | .tm => "TM" | .rm r => s!"RM({r})"
     s!"announce={",".intercalate ann} begin=ok phase2={if point == "between-phases" then "ok" else "n/a"}"
+  | ["wait", n] =>
+    -- a request waiting while no session is open: n closed sessions appear in the registry, later an open one
+    let dead := (List.range (n.toNat?.getD 0)).map fun i => ({ id := 7000 + i, addr := "a:1", closed := true } : Sess)
+    match waitPick [[], dead, [], [], [{ id := 1, addr := "a:1", closed := false }]] with
+    | none => "nil"
+    | some s => if s.closed then "closed" else "open"
   | _ => "bad-op"
 
 end Seata.Driver.C19
